@@ -160,7 +160,9 @@ def install(X):
 
     @X.register_opaque("process", "join")
     def _(interp, p, args, kwargs):
-        interp.path.event("proc_join", p)
+        # join() returns once the process has ended; join(timeout) may return while it is still running (exitcode None)
+        timeout = args[0] if args else kwargs.get("timeout")
+        interp.path.event("proc_join", p, timeout)
         return None
 
     # ---- callbacks (user code): may raise anything ----
